@@ -97,7 +97,7 @@ def gen_plan(seed, tier="quick"):
         "k_filter": k_filter, "reject": reject, "wrot": wrot, "wrot_seed": r.randrange(1 << 30),
         "ns2add": r.choice([0, 0, 0, 7, 100, (-ns) % 512]), "drop_sync": r.random() < 0.3,
         "default_k": nap >= 64 and r.random() < 0.7, "ntr_pad": r.choice([4, 8, min(nap, 12)]),
-        "append": r.random() < 0.2, "ns_first": r.randrange(1500, 9000), "nproc_first": r.choice([1, 2, 3]),
+        "append": r.random() < 0.2, "ns_first": r.randrange(12000, 16000) if (reject and r.random() < 0.7) else r.randrange(1500, 9000), "nproc_first": r.choice([1, 2, 3]),
         "p_switch": r.choice([0.0, 0.0, 0.01, 0.05, 0.2, 0.5, 1.0]),
         "victim": r.choice([None, None, 0, nproc - 1, r.randrange(nproc)]),
         "order": r.choice([None, None, "reverse", "shuffle"]),
@@ -110,6 +110,25 @@ def gen_plan(seed, tier="quick"):
 class Violation(Exception):
     def __init__(self, clause, sig, detail):
         self.clause, self.sig, self.detail = clause, sig, detail
+
+
+def _reject(plan):
+    """Channel rejection scans ten 0.3 s snippets: only a documented use on recordings comfortably
+    longer than that (every recording of the history, incl. the first run of an append)."""
+    shortest = min(plan["ns"], plan["ns_first"]) if plan["append"] else plan["ns"]
+    return bool(plan["reject"]) and shortest >= 12000
+
+
+def _k_filter(plan, W):
+    """With channel rejection the spatial filter only sees the channels labelled inside the brain;
+    the k-filter's mirror padding / filtfilt need more channels than ntr_pad (resp. 12), which is
+    a precondition of kfilt (C05's subject), not of C06: fall back to CAR when it is not met."""
+    if not plan["k_filter"]:
+        return False
+    if not _reject(plan):
+        return True
+    pad = 60 if plan["default_k"] else plan["ntr_pad"]
+    return W.get("n_inside", 0) > max(pad, 12 - 2 * pad)
 
 
 def _k_kwargs(plan, fs):
@@ -132,7 +151,7 @@ def _wrot(plan, ncv):
 def _destripe_call(plan, binf, out, nproc, append, W):
     fs = W["fs"]
     kw = dict(output_file=out, nprocesses=nproc, nbatch=plan["nbatch"], k_kwargs=_k_kwargs(plan, fs),
-              k_filter=plan["k_filter"], reject_channels=plan["reject"], wrot=_wrot(plan, W["ncv"]),
+              k_filter=_k_filter(plan, W), reject_channels=_reject(plan), wrot=_wrot(plan, W["ncv"]),
               ns2add=plan["ns2add"], append=append)
     if plan["drop_sync"]:
         kw["nc_out"] = W["ncv"]
@@ -198,6 +217,15 @@ def _run(plan, base):
     rec = base / "rec"
     binf = world.write_recording(rec, STEM, plan["fixture"], O)
     W = {"root": base, "fs": fs, "ncv": nap, "nc": nap + 1}
+    if _reject(plan):
+        n_in = []
+        recs = [binf]
+        for rb in recs:
+            srx = spikeglx.Reader(rb)
+            lab = voltage.detect_bad_channels_cbin(srx)
+            srx.close()
+            n_in.append(int(np.sum(lab != 3)))
+        W["n_inside"] = min(n_in)
     nc_out = nap if plan["drop_sync"] else nap + 1
     log = []
     stats = {"faults": {}, "probes": {}, "outcomes": {}, "distinct": [], "steps": 0, "config": {}}
@@ -209,10 +237,12 @@ def _run(plan, base):
     stride = plan["nbatch"] - 2 * T
     nbatches = max(0, -(-(ns - plan["nbatch"]) // stride)) + 1
     stats["config"][f"nproc={plan['nproc']}"] = 1
-    stats["config"]["kfilt" if plan["k_filter"] else "car"] = 1
-    for key in ("reject", "append", "drop_sync"):
+    stats["config"]["kfilt" if _k_filter(plan, W) else "car"] = 1
+    for key in ("append", "drop_sync"):
         if plan[key]:
             stats["config"][key] = 1
+    if _reject(plan):
+        stats["config"]["reject"] = 1
     if plan["wrot"] != "none":
         stats["config"]["wrot_" + plan["wrot"]] = 1
     if plan["ns2add"]:
@@ -269,7 +299,7 @@ def _run(plan, base):
             raise Violation("C06.d", f"{sigbase}:differs-from-1-worker",
                             f"output with {plan['nproc']} workers differs from the 1-worker run: {len(bad)} int16 values, first at sample {bad[0] // nc_out if len(bad) else '?'} (sizes {len(a)} vs {len(b)}) ns={ns} nbatch={plan['nbatch']}")
         # e: equals batch-wise in-memory destriping (1 LSB)
-        _check_reference(plan, O, outs["ref"], offset, nc_out, fs, rec, sigbase)
+        _check_reference(plan, O, outs["ref"], offset, nc_out, fs, rec, sigbase, W)
     except Violation as v:
         viol = {"clause": v.clause, "sig": v.sig, "detail": v.detail}
     xplan = dict(plan)
@@ -364,14 +394,14 @@ def _check_run(plan, tag, nproc, O, data, offset, first_bytes, nc_out, res, od, 
         probe("saturation_detected")
 
 
-def _check_reference(plan, O, out, offset, nc_out, fs, rec, sigbase):
+def _check_reference(plan, O, out, offset, nc_out, fs, rec, sigbase, W):
     """Batch-wise in-memory destriping with the documented taper margins (float64 fshift), via
     the public voltage.destripe()."""
     ns, nap, N = plan["ns"], plan["nap"], plan["nbatch"]
     sr = spikeglx.Reader(rec / f"{STEM}.ap.bin")
     try:
         h = sr.geometry
-        labels = voltage.detect_bad_channels_cbin(sr) if plan["reject"] else None
+        labels = voltage.detect_bad_channels_cbin(sr) if _reject(plan) else None
         taper = np.r_[0, scipy.signal.windows.cosine((T - 1) * 2), 0]
         s2v = sr.sample2volts
         wrot = _wrot(plan, nap)
@@ -386,7 +416,7 @@ def _check_reference(plan, O, out, offset, nc_out, fs, rec, sigbase):
             chunk[:, :T] *= taper[:T]
             chunk[:, -T:] *= taper[T:]
             x = voltage.destripe(chunk.astype(np.float64), fs=sr.fs, h=h, butter_kwargs=None,
-                                 k_kwargs=_k_kwargs(plan, fs), channel_labels=labels, k_filter=plan["k_filter"])
+                                 k_kwargs=_k_kwargs(plan, fs), channel_labels=labels, k_filter=_k_filter(plan, W))
             x = x.T * mute[:, None]
             i0 = 0 if first == 0 else T
             i1 = (last - first) if last == ns else N - T
